@@ -57,6 +57,7 @@ TIES = {
             "latter_map_to_accessor": ("DswModel.Tie.GzViews", ["tie_latter_map_to_accessor_plain", "tie_latter_map_to_accessor_trim"]),
             "obtain_leaf_vertices": ("DswModel.Tie.GzViews", ["tie_obtain_leaf_vertices_acc", "tie_obtain_leaf_vertices_map",
                                                                "tie_obtain_leaf_vertices_bad"]),
+            "calculate_intersection_score": ("DswModel.Tie.GzScore", ["tie_calculate_intersection_score"]),
         },
         "extra_modules": [],
     },
@@ -68,6 +69,7 @@ TIES = {
             "repair_dna": ("DswModel.Tie.SwRepair", ["tie_repair_dna"]),
             "find_vertices": ("DswModel.Tie.SwFind", ["tie_find_vertices"]),
             "connect_valid_graph": ("DswModel.Tie.SwValid", ["tie_connect_valid_graph", "tie_connect_valid_graph_none"]),
+            "connect_coding_graph": ("DswModel.Tie.SwCoding", ["tie_connect_coding_graph"]),
         },
         "extra_modules": ["DswModel.Tie.SwCorollaries", "DswModel.Tie.RepCorollaries"],
     },
